@@ -79,6 +79,28 @@ def register_plus_constant(quick):
     return out
 
 
+def destination_inside_right_operand(quick):
+    """the destination register occurs in the RIGHT operand, plainly or under unary minus / abs or inside a deeper
+    subtree: `r3 = b - r3`, `r3 = b - (-r3)`, `r3 = b * abs(r3)`, `r3 = b - (r3 + 1)`.  The generator must keep the
+    register's old value until the right operand has been evaluated.  (Two seeded changes lived here: the width of
+    the final register move, and the unary classes no longer reporting which registers they contain.)"""
+    out = []
+    k = 0
+    lefts = [("var", "Q"), ("var", "b"), ("reg", "w"), ("const", 100), ("local", "q")]
+    for kind in ("r", "sr", "w"):
+        reg = ("reg", kind)
+        rights = [reg, ("neg", reg), ("abs", reg), ("bin", "add", reg, ("const", 1)), ("bin", "mul", ("neg", reg), ("var", "B")),
+                  ("neg", ("bin", "sub", reg, ("const", 3)))]
+        for op in ("add", "sub", "mul", "and", "or", "xor"):
+            for left in lefts:
+                for right in rights:
+                    k += 1
+                    if quick and k % 4:
+                        continue
+                    out.append((("bin", op, left, right), ("reg", kind, "alias")))
+    return out
+
+
 def random_tree(rng, depth):
     if depth == 0 or rng.random() < 0.15:
         if rng.random() < 0.2:
@@ -131,7 +153,7 @@ def tree_has(tree, kinds):
 
 def run(ctx):
     fixed = random.Random(20260922)
-    stmts = depth1(ctx.quick) + register_plus_constant(ctx.quick)
+    stmts = depth1(ctx.quick) + register_plus_constant(ctx.quick) + destination_inside_right_operand(ctx.quick)
     for _ in range(300 if ctx.quick else 2500):
         stmts.append((random_tree(fixed, 2 if ctx.quick or fixed.random() < 0.6 else 3), fixed.choice(DSTS)))
     for _ in range(60 if ctx.quick else 400):
@@ -143,7 +165,8 @@ def run(ctx):
         # every fourth statement sits inside the block of a temporary (which then occupies a register, usually r0)
         scope = (None, "stmp", None, None, None, "tmp", None, None)[si % 8]
         # a register destination that is also an operand (`r3 = 10 - r3`): every second such statement
-        alias = dst[0] == "reg" and si % 2 == 0
+        alias = dst[0] == "reg" and (si % 2 == 0 or len(dst) > 2)
+        dst = dst[:2]
         try:
             st = G.statement(tree, dst, scope=scope, alias_dst=alias)
         except G.NotGenerated as e:
